@@ -42,6 +42,29 @@ theorem fact_store_keys :
     Facts.C05.s2sNonceSource = "extractNonce(presentation)" ∧
     Facts.C05.keysJti = ["useNonceOnceStore.PutIfAbsent(dpopToken.Token.JwtID())"] := by decide
 
+set_option maxRecDepth 16384 in
+/-- where the consumers are called from and with what: the token endpoint dispatches the authorization_code grant to
+    `handleAccessTokenRequest` and the vp_token-bearer grant to `handleS2SAccessTokenRequest`; the latter checks the
+    nonce of EVERY presentation of the envelope (no `break`/`continue`, only the error return leaves the loop); the
+    OpenID4VP response endpoint passes ALL presentations and the request's state to `validatePresentationNonce` -/
+theorem fact_call_sites :
+    Facts.C05.sitesCode = ["HandleTokenRequest: r.handleAccessTokenRequest(ctx, *request.Body)"] ∧
+    Facts.C05.sitesS2S = ["HandleTokenRequest: r.handleS2SAccessTokenRequest(ctx, *request.Body.ClientId, request.SubjectID, *request.Body.Scope, *request.Body.PresentationSubmission, *request.Body.Assertion)"] ∧
+    Facts.C05.sitesVpNonce = ["handleAuthorizeResponseSubmission: r.validatePresentationNonce(pexEnvelope.Presentations, state)"] ∧
+    Facts.C05.sitesS2SNonce = ["handleS2SAccessTokenRequest: r.validateS2SPresentationNonce(presentation) [in range pexEnvelope.Presentations]"] ∧
+    Facts.C05.s2sNonceLoopExits = ["return nil, err"] ∧
+    Facts.C05.sitesExtractNonce = ["validatePresentationNonce: extractNonce(presentation) [in range presentations]",
+      "validateS2SPresentationNonce: extractNonce(presentation)"] ∧
+    Facts.C05.sitesExtractChallenge = ["validatePresentationNonce: extractChallenge(presentation) [in range presentations]"] := by decide
+
+/-- one session database per engine: built once in `Configure`, handed out as it is by `GetSessionDatabase`
+    (a database built per call would have its own mutex — and its own in-memory store) -/
+theorem fact_engine_wiring :
+    Facts.C05.engineGetSessionDatabase = "e.sessionDatabase" ∧
+    Facts.C05.sessionDbConstructions = ["NewTestInMemorySessionDatabase:NewInMemorySessionDatabase",
+      "engine.Configure:NewInMemorySessionDatabase", "engine.Configure:NewMemcachedSessionDatabase",
+      "engine.Configure:NewRedisSessionDatabase"] := by decide
+
 /-- the one-time stores are used by exactly these functions: the four issuing functions `Put` (fresh random keys),
     every other access is one of the modelled consumers -/
 theorem fact_store_users :
